@@ -102,19 +102,33 @@ class Underlying(abc.ABC):
             # back to the identity representation, i.e. to the implementation of the class
             self.__dict__.pop("value", None)
 
-    def imply_from_payoff_underlying(self, payoff_underlying_type) -> Callable:
+    def imply_from_payoff_underlying(self, payoff_underlying) -> Callable:
         """
         If the underlying is closely related (potentially the same) to the payoff underlying, then we can use this
         knowledge to speed up the computation of the underlying in scope.
 
-        :param payoff_underlying_type: underlying type of the payoff underlying
+        :param payoff_underlying: payoff underlying of the priced product
         :return: a function that will take the times, the path and the payoff underlying value and return the
                  underlying value from the relevant quantities
         """
-        if isinstance(self, payoff_underlying_type):
+        if self.has_same_terms(payoff_underlying):
             return lambda times, path, jump_path, payoff_underlying: payoff_underlying
 
         return self.value
+
+    def has_same_terms(self, other) -> bool:
+        """True if `other` is an underlying of the same class with the same terms (index, levels, dates...): only then
+        do the two have the same value on every path"""
+        if type(other) is not type(self):
+            return False
+        mine, theirs = self._terms(), other._terms()
+        return mine.keys() == theirs.keys() and all(
+            np.array_equal(mine[key], theirs[key]) for key in mine
+        )
+
+    def _terms(self) -> dict:
+        # "value" is the representation switch set by update(), not a term of the underlying
+        return {key: val for key, val in vars(self).items() if key != "value"}
 
     def check_consistency(self, process_dimension: int):
         if (self.underlying_dimension == UnderlyingDimension.MULTIDIMENSIONAL) and (
@@ -328,13 +342,13 @@ class NthSpot(Underlying):
         """:return: the logarithm of the last spot underlying"""
         return np.exp(path[self.index - 1, -1])
 
-    def imply_from_payoff_underlying(self, payoff_underlying_type) -> Callable:
-        if payoff_underlying_type is Spot:
+    def imply_from_payoff_underlying(self, payoff_underlying) -> Callable:
+        if type(payoff_underlying) is Spot:
             return lambda times, path, jump_path, payoff_underlying: payoff_underlying[
                 self.index - 1
             ]
 
-        return super().imply_from_payoff_underlying(payoff_underlying_type)
+        return super().imply_from_payoff_underlying(payoff_underlying)
 
 
 class Indicators(Underlying):
